@@ -212,6 +212,85 @@ def library_objects(ctx):
     return n
 
 
+def nested_functionals(ctx):
+    """a functional called inside the function of another functional, both on methods of ONE object (the inner view is created
+    while the outer substitution is active): gradients w.r.t. the object's tensors against central differences, object left intact"""
+    import xitorch.integrate
+    DT = torch.float64
+
+    class NestE(xitorch.EditableModule):
+        def __init__(self, a, b):
+            self.a, self.b = a, b
+
+        def getparamnames(self, methodname, prefix=""):
+            return [prefix + "b"] if methodname == "resid" else [prefix + "a", prefix + "b"]
+
+    class NestN(torch.nn.Module):
+        def __init__(self, a, b):
+            super().__init__()
+            self.a, self.b = torch.nn.Parameter(a), torch.nn.Parameter(b)
+
+    def resid(self, y, c):
+        return y ** 3 + self.b * y - c
+
+    def integrand(self, x):
+        return xitorch.optimize.rootfinder(self.resid, torch.zeros_like(x), params=(self.a * x,), f_tol=1e-13, x_tol=1e-13)
+
+    def rhs(self, t, y):
+        return -xitorch.optimize.rootfinder(self.resid, torch.zeros_like(y), params=(self.a * y,), f_tol=1e-13, x_tol=1e-13)
+    for cls in (NestE, NestN):
+        cls.resid, cls.integrand, cls.rhs = resid, integrand, rhs
+
+    def build(cls, av, bv):
+        a = torch.tensor(av, dtype=DT)
+        b = torch.tensor(bv, dtype=DT)
+        if cls is NestE:
+            a.requires_grad_()
+            b.requires_grad_()
+        return cls(a, b)
+
+    def value(m, outer):
+        if outer == "quad":
+            return xitorch.integrate.quad(m.integrand, torch.tensor([0.0], dtype=DT), torch.tensor([1.0], dtype=DT), n=6)
+        if outer == "solve_ivp":
+            return xitorch.integrate.solve_ivp(m.rhs, torch.linspace(0, 0.5, 3, dtype=DT), torch.ones(1, dtype=DT), method="rk4")[-1]
+        if outer == "solve_ivp45":
+            return xitorch.integrate.solve_ivp(m.rhs, torch.linspace(0, 0.5, 3, dtype=DT), torch.ones(1, dtype=DT), method="rk45", rtol=1e-9, atol=1e-11)[-1]
+        f = xitorch.make_sibling(m.integrand)(lambda y: y - 0.5 * m.integrand(y) - 0.1)
+        return xitorch.optimize.rootfinder(f, torch.zeros(1, dtype=DT), f_tol=1e-13, x_tol=1e-13)
+    n = 0
+    with warnings.catch_warnings():
+        warnings.simplefilter("ignore")
+        for cls, kname in ((NestE, "edit"), (NestN, "nn")):
+            for outer in ("quad", "solve_ivp", "solve_ivp45", "rootfinder"):
+                for cg in (False, True):
+                    n += 1
+                    ctx.case(key=("nested", kname, outer, cg))
+                    why = None
+                    try:
+                        m = build(cls, 1.3, 0.8)
+                        a0, b0 = m.a, m.b
+                        v = value(m, outer)
+                        g = torch.autograd.grad(v.sum(), [a0, b0], create_graph=cg, allow_unused=True)
+                        if not (m.a is a0 and m.b is b0) or (kname == "nn" and [nm for nm, _ in m.named_parameters()] != ["a", "b"]) or "_xitorch_replaced_params" in getattr(m, "__dict__", {}):
+                            why = "the object does not hold its original tensors afterwards"
+                        else:
+                            h = 1e-6
+                            fd = [(float(value(build(cls, 1.3 + h, 0.8), outer)) - float(value(build(cls, 1.3 - h, 0.8), outer))) / (2 * h),
+                                  (float(value(build(cls, 1.3, 0.8 + h), outer)) - float(value(build(cls, 1.3, 0.8 - h), outer))) / (2 * h)]
+                            for nm, gi, fi in zip(("a", "b"), g, fd):
+                                gv = 0.0 if gi is None else float(gi)
+                                if abs(gv - fi) > 2e-5 * max(1.0, abs(fi)):
+                                    why = "gradient w.r.t. %s is %s, central difference %.8f" % (nm, "absent" if gi is None else "%.8f" % gv, fi)
+                                    break
+                    except Exception as e:
+                        why = "raised %s: %s" % (type(e).__name__, str(e)[:140])
+                    if why:
+                        ctx.violation("repr/nested/%s/%s" % (kname, outer.rstrip("45")), "%s whose function calls rootfinder on another method of the same %s object (backward %s graph recording): %s"
+                                      % (outer, "EditableModule" if kname == "edit" else "torch.nn.Module", "with" if cg else "without", why), {"kind": kname, "outer": outer, "cg": cg})
+    return n
+
+
 def run(ctx):
     thorough = ctx.tier == "thorough"
     torch.manual_seed(ctx.seed)
@@ -233,6 +312,7 @@ def run(ctx):
 
     nk = fnkinds(ctx)
     nk += library_objects(ctx)
+    nk += nested_functionals(ctx)
     ctx.replayed = nk
     # 2. every functional on every representation, protocol validated by TLC, numeric verdicts in the final event
     traces = []
